@@ -95,8 +95,8 @@ var c07Levels = [c07NF][]string{
 	fV4Sup:         {"true", "false", "absent"},
 	fV6Sup:         {"true", "false", "absent"},
 	fRegistrant:    {"v4-mapped16", "v4-4B", "v6", "absent", "len5", "len0"},
-	fPh4:           {"derived", "pinned-ok", "pinned-blocklisted"},
-	fPh6:           {"derived", "pinned-ok", "pinned-blocklisted", "malformed-4B", "malformed-5B"},
+	fPh4:           {"derived", "pinned-ok", "pinned-blocklisted", "zero"},
+	fPh6:           {"derived", "pinned-ok", "pinned-blocklisted", "ipv4-as-4B", "malformed-5B", "ipv4-mapped-16B", "ipv4-as-4B-blocklisted", "zero16", "len0"},
 	fPort:          {"default", "override", "randomized-params"},
 	fCovert:        {"ok-v4", "ok-v6", "ok-unless-allowlist", "blocked-subnet-v4", "blocked-subnet-v6", "no-port", "bad-port", "empty", "absent", "blocked-domain"},
 	fPrescan:       {"flags-absent", "flags-without-prescanned", "false", "true"},
@@ -619,20 +619,33 @@ func (h *c07H) build(v c07Vec) *c07Case {
 	case 1:
 		c.pin4 = c07IP4(172<<24|16<<16, n&0xfffff)
 	case 2:
-		c.pin4 = c07IP4(198<<24|18<<16, n&0x1ffff)
+		c.pin4 = c07IP4(198<<24|18<<16, n&0xffff)
+	case 3:
+		need().Ipv4Addr = proto.Uint32(0) // present but zero: whatever phantom the registration ends up with is judged
 	}
 	if c.pin4 != nil {
 		need().Ipv4Addr = proto.Uint32(binary.BigEndian.Uint32(c.pin4.To4()))
 	}
+	// the ipv6addr field is bytes: the registrar can put anything there, including an IPv4 address
+	// (family-crossed override).  Crossed addresses come from ranges of their own so that they are
+	// never mistaken for the IPv4 slot's phantom.
 	switch v[fPh6] {
 	case 1:
 		c.pin6 = c07IP6("2001:db8:f00d::", n)
 	case 2:
 		c.pin6 = c07IP6("2001:db8:b10c::", n)
 	case 3:
-		c.pin6 = c07IP4(172<<24|16<<16, n&0xfffff) // a 4-byte address in the IPv6 field
+		c.pin6 = c07IP4(25<<24, n&0xffffff) // a 4-byte address in the IPv6 field
 	case 4:
 		c.pin6 = net.IP{0x20, 0x01, 0x0d, 0xb8, byte(n)}
+	case 5:
+		c.pin6 = c07IP4(25<<24, n&0xffffff).To16() // ::ffff:25.x.y.z
+	case 6:
+		c.pin6 = c07IP4(198<<24|19<<16, n&0xffff) // 4-byte, inside the phantom blocklist
+	case 7:
+		c.pin6 = make(net.IP, 16)
+	case 8:
+		c.pin6 = net.IP{}
 	}
 	if c.pin6 != nil {
 		need().Ipv6Addr = []byte(c.pin6)
@@ -684,8 +697,16 @@ type c07Ref struct {
 	live        bool
 	v4sup       bool
 	deliveries  int
-	fam         [2]c07FamRef // 0 = IPv4 registration, 1 = IPv6 registration
+	// fam[0] = the registration built for v4_support (phantom from the generation's IPv4 subnets or the
+	// ipv4addr override), fam[1] = the one built for v6_support (IPv6 subnets or the ipv6addr override)
+	fam [2]c07FamRef
+	// finalV4[f]: the phantom this registration ENDS UP with is an IPv4 address.  Always true for fam[0];
+	// true for fam[1] when the registrar put an IPv4 address (4 bytes or ::ffff:a.b.c.d) into ipv6addr.
+	// The family conditions of the statement are judged on this.
+	finalV4 [2]bool
 }
+
+func c07Crossed(v c07Vec) bool { return v[fPh6] == 3 || v[fPh6] == 5 || v[fPh6] == 6 }
 
 func c07Reference(v c07Vec) c07Ref {
 	r := c07Ref{
@@ -703,11 +724,22 @@ func c07Reference(v c07Vec) c07Ref {
 		// every message without a secret is the same registration as every other one: not judged
 		r.skip = "no-shared-secret"
 	}
-	if v[fPh6] >= 3 {
-		r.skip = "malformed-ipv6-override"
-	}
+	r.finalV4 = [2]bool{true, c07Crossed(v)}
 	for f := 0; f < 2; f++ {
 		fr := &r.fam[f]
+		if f == 1 {
+			switch v[fPh6] {
+			case 4, 8:
+				fr.unspec = append(fr.unspec, "malformed-ipv6-override")
+			case 7:
+				fr.unspec = append(fr.unspec, "unspecified-address-as-ipv6-override")
+			case 3, 5, 6:
+				// admissible or not when everything else fits?  The statement does not say what a station owes a
+				// client that asked for IPv6 and was assigned an IPv4 phantom; what it does say - family enabled,
+				// consistent with the registrant, probe for IPv4 phantoms, blocklist - is judged on the IPv4 phantom
+				fr.unspec = append(fr.unspec, "ipv4-address-in-ipv6-override")
+			}
+		}
 		// complete
 		if !payload {
 			fr.fail = append(fr.fail, "incomplete")
@@ -739,10 +771,15 @@ func c07Reference(v c07Vec) c07Ref {
 		default:
 			fr.fail = append(fr.fail, "generation")
 		}
-		// its address family: asked for, enabled on the station, consistent with the registrant
-		sup, sta := v[fV4Sup], v[fStaV4]
+		// its address family: asked for, enabled on the station, consistent with the registrant -
+		// "its" family is the family of the phantom the registration ends up with
+		sup := v[fV4Sup]
 		if f == 1 {
-			sup, sta = v[fV6Sup], v[fStaV6]
+			sup = v[fV6Sup]
+		}
+		sta := v[fStaV6]
+		if r.finalV4[f] {
+			sta = v[fStaV4]
 		}
 		if payload && sup != 0 {
 			fr.fail = append(fr.fail, "family-not-requested")
@@ -753,11 +790,11 @@ func c07Reference(v c07Vec) c07Ref {
 		switch v[fRegistrant] {
 		case 0, 1: // an IPv4 registrant may use either family
 		case 2, 3: // IPv6 / unknown registrant: an IPv4 phantom needs an IPv4 registrant
-			if f == 0 {
+			if r.finalV4[f] {
 				fr.fail = append(fr.fail, "family-inconsistent")
 			}
 		default: // not an address at all
-			if f == 0 {
+			if r.finalV4[f] {
 				fr.fail = append(fr.fail, "family-inconsistent")
 			} else {
 				fr.unspec = append(fr.unspec, "malformed-registrant-address")
@@ -780,7 +817,7 @@ func (r *c07Ref) decide(f int, phantom net.IP) c07Decision {
 	fr := &r.fam[f]
 	var d c07Decision
 	fail := append([]string(nil), fr.fail...)
-	v4 := f == 0
+	v4 := r.finalV4[f]
 	if phantom != nil {
 		v4 = phantom.To4() != nil
 	}
@@ -922,7 +959,7 @@ func (h *c07H) judgeAdmission(c *c07Case, rm *RegistrationManager) {
 		if phantom == nil {
 			if f == 0 {
 				phantom = c.pin4
-			} else if c.v[fPh6] <= 2 {
+			} else if l := c.v[fPh6]; l != 4 && l != 8 {
 				phantom = c.pin6
 			}
 		}
@@ -946,6 +983,9 @@ func (h *c07H) judgeAdmission(c *c07Case, rm *RegistrationManager) {
 			}
 		}
 		fam := c07FamName[f]
+		if f == 1 && ref.finalV4[1] {
+			fam = "v6-slot-with-ipv4-override"
+		}
 		if !d.judged {
 			if ref.skip == "" {
 				why := "phantom-unknown"
@@ -1104,8 +1144,12 @@ func (h *c07H) judgeShare(c *c07Case) {
 		return
 	}
 	ctx := map[string]interface{}{"share_requests": n}
+	crossed := ""
+	if ref.finalV4[1] {
+		crossed = ":ipv4-address-in-ipv6-override"
+	}
 	if n > 1 {
-		h.viol(c, "share:more-than-once", "one client registration was passed on to the peer stations more than once", ctx)
+		h.viol(c, "share:more-than-once"+crossed, "one client registration was passed on to the peer stations more than once", ctx)
 	}
 	// may it be shared at all?  only a registration learned from the local detector, with sharing on,
 	// and only after it passed the liveness probe (when one was due)
@@ -1127,7 +1171,7 @@ func (h *c07H) judgeShare(c *c07Case) {
 			phantom := o.phantom
 			v4 := phantom != nil && phantom.To4() != nil
 			if phantom == nil {
-				v4 = f == 0
+				v4 = ref.finalV4[f]
 			}
 			switch {
 			case !v4 || ref.prescanned:
@@ -1144,6 +1188,10 @@ func (h *c07H) judgeShare(c *c07Case) {
 		}
 		if !allowed {
 			reason = "no-registration-passed-the-liveness-probe"
+			// the registrar's IPv4-in-ipv6addr registration was probed and passed, but is itself not admissible
+			if o, fr := &c.obs.fam[1], &ref.fam[1]; ref.finalV4[1] && len(fr.fail) > 0 && (o.created || o.tracked) && (ref.prescanned || len(o.probes) > 0 && !ref.live) {
+				reason = "not-admissible(" + fr.fail[0] + "):v6-slot-with-ipv4-override"
+			}
 		}
 	}
 	if reason != "" && n > 0 {
@@ -1290,16 +1338,12 @@ func (h *c07H) runTable(v c07Vec) {
 			if reg == nil {
 				continue
 			}
+			// which of the two registrations of the message is it?  The one whose phantom is the ipv6addr
+			// override (whatever family that address has) or an IPv6 address is the v6_support one.
+			_ = i
 			f := 1
-			if reg.PhantomIp.To4() != nil {
+			if !(len(c.pin6) > 0 && reg.PhantomIp.Equal(c.pin6)) && reg.PhantomIp.To4() != nil {
 				f = 0
-			}
-			if c.ref.skip == "malformed-ipv6-override" {
-				// the slot decides, the address family cannot
-				f = 1
-				if len(regs) == 2 && i == 0 || len(regs) == 1 && c.v[fV6Sup] != 0 {
-					f = 0
-				}
 			}
 			o := &c.obs.fam[f]
 			if !o.created {
@@ -1523,16 +1567,20 @@ func TestVerifC07Pipeline(t *testing.T) {
 			if v[fSecret] == 2 {
 				v[fSecret] = 0
 			}
-			if v[fPh4] == 0 {
+			if v[fPh4] == 0 || v[fPh4] == 3 {
 				v[fPh4] = uint8(1 + rng.Intn(2))
 			}
-			if v[fPh6] == 0 || v[fPh6] >= 3 {
-				v[fPh6] = uint8(1 + rng.Intn(2))
+			switch v[fPh6] {
+			case 0, 4, 7, 8: // attribution needs a unique, well-formed address
+				v[fPh6] = []uint8{1, 2, 3, 5, 6}[rng.Intn(5)]
 			}
 			c := h.build(v)
 			c.mon = "pipeline"
 			h.live.mu.Lock()
 			h.live.byAddr[c.pin4.String()] = c07Verdicts[v[fVerdict]]
+			if c.pin6.To4() != nil {
+				h.live.byAddr[c.pin6.String()] = c07Verdicts[v[fVerdict]]
+			}
 			h.live.mu.Unlock()
 			cases = append(cases, c)
 		}
